@@ -61,6 +61,7 @@ func (e *Engine) newCtx(fn *ssa.Function, spec *FuncSpec, mode string) *FnCtx {
 		eng: e, sc: sc, ty: NewTypes(sc), fn: fn, spec: spec, mode: mode,
 		assumed: map[string]bool{}, unmodelled: map[string]bool{}, inlined: map[string]bool{},
 		obSeq: map[string]int{}, ghostDecl: map[string]bool{}, maxDepth: 8,
+		nonNil: map[string]bool{}, ranges: map[string]*rangeState{},
 	}
 	return c
 }
@@ -69,9 +70,25 @@ func (c *FnCtx) entryState() *State {
 	c.sc.Decl("alloc0", "(declare-const |alloc0| Int)\n(assert (> |alloc0| 0))")
 	st := &State{heap: map[string]string{}, locals: map[string]Val{}, guard: "true", defers: map[int][]deferEntry{}, alloc: "|alloc0|"}
 	for _, k := range c.eng.compOrder {
+		for _, t := range c.eng.compDeps[k] {
+			c.ty.SortOf(t) // declares the datatypes the component's sort mentions
+		}
 		n := q(k + "@0")
 		c.sc.Decl("comp0:"+k, fmt.Sprintf("(declare-const %s %s)", n, c.eng.comps[k]))
 		st.heap[k] = n
+		// the entry heap is closed under allocation: every reference stored in it is below alloc0
+		if et := c.eng.compElem[k]; et != nil {
+			switch {
+			case strings.HasPrefix(k, "E$"):
+				if rb := c.refBound(et, "(select (select "+n+" r) i)", st); rb != "true" {
+					c.sc.Decl("wf0:"+k, fmt.Sprintf("(assert (forall ((r Int) (i Int)) (! %s :pattern ((select (select %s r) i)))))", rb, n))
+				}
+			default:
+				if rb := c.refBound(et, "(select "+n+" r)", st); rb != "true" {
+					c.sc.Decl("wf0:"+k, fmt.Sprintf("(assert (forall ((r Int)) (! %s :pattern ((select %s r)))))", rb, n))
+				}
+			}
+		}
 	}
 	return st
 }
@@ -175,6 +192,7 @@ func (c *FnCtx) runTop(rep *FnReport, kf *KnownFindings) (err error) {
 			env.names[l.Name] = v
 		}
 	}
+	c.assumeAxioms(env, spec.Pkg)
 	for _, r := range spec.Requires {
 		if r.Mode != "" && r.Mode != c.mode {
 			continue
@@ -274,7 +292,7 @@ func (e *Engine) VerifyLemma(lm *LemmaSpec) *FnReport {
 	rep := &FnReport{Name: strings.TrimPrefix(strings.TrimPrefix(lm.Pkg, e.module+"/"), "pkg/") + ".lemma." + lm.Name}
 	for pass := 0; pass < 4; pass++ {
 		sc := NewScript()
-		c := &FnCtx{eng: e, sc: sc, ty: NewTypes(sc), assumed: map[string]bool{}, unmodelled: map[string]bool{}, inlined: map[string]bool{}, obSeq: map[string]int{}, ghostDecl: map[string]bool{}}
+		c := &FnCtx{eng: e, sc: sc, ty: NewTypes(sc), assumed: map[string]bool{}, unmodelled: map[string]bool{}, inlined: map[string]bool{}, obSeq: map[string]int{}, ghostDecl: map[string]bool{}, nonNil: map[string]bool{}, ranges: map[string]*rangeState{}}
 		rep.ctx = c
 		err := func() (err error) {
 			defer func() {
@@ -304,6 +322,7 @@ func (e *Engine) VerifyLemma(lm *LemmaSpec) *FnReport {
 				}
 				env.names[v.Name] = val
 			}
+			c.assumeAxioms(env, lm.Pkg)
 			for _, r := range lm.Requires {
 				sc.Assume(c.evalBool(env, r.E))
 			}
@@ -328,6 +347,19 @@ func (e *Engine) VerifyLemma(lm *LemmaSpec) *FnReport {
 		}
 	}
 	return rep
+}
+
+// assumeAxioms: definitional axioms of spec functions (evaluated over the entry heap).
+func (c *FnCtx) assumeAxioms(env *Env, pkg string) {
+	for _, ax := range c.eng.specs.Axioms {
+		if ax.Pkg != pkg {
+			continue
+		}
+		ne := *env
+		ne.specPkg = ax.Pkg
+		c.sc.Assume(c.evalBool(&ne, ax.E))
+		c.assumed["axiom "+ax.Name+": "+ax.Text] = true
+	}
 }
 
 func (e *Engine) ghostEntry(c *FnCtx, fr *Frame, st *State)            {}
